@@ -35,6 +35,10 @@ pub struct Msg {
 #[derive(Debug, Clone, PartialEq, Eq, Hash, Serialize, Deserialize)]
 pub struct Batch {
     pub msgs: Vec<Msg>,
+    /// a TCP client that has connected and sent one octet of a length prefix
+    /// stays connected, silent, for the whole batch
+    #[serde(default)]
+    pub idle_tcp_client: bool,
 }
 
 // --------------------------------------------------------------------------
@@ -427,13 +431,24 @@ fn run_batch(addr: SocketAddr, b: &Batch) -> Result<BatchResult, String> {
     let mut tcp_prefix_mismatch = None;
     let sock = UdpSocket::bind("127.0.0.1:0").map_err(|e| e.to_string())?;
     sock.connect(addr).map_err(|e| e.to_string())?;
+    // a client that connects, sends one octet and then keeps quiet must not
+    // keep anybody else from being served
+    let _idle = if b.idle_tcp_client {
+        use std::io::Write;
+        std::net::TcpStream::connect_timeout(&addr, Duration::from_secs(2)).ok().map(|mut s| {
+            let _ = s.write_all(&[0]);
+            s
+        })
+    } else {
+        None
+    };
     // TCP conversations and UDP datagrams interleave in batch order
     for (i, m) in b.msgs.iter().enumerate() {
         match &m.via {
             Via::Udp => {
                 sock.send(&m.bytes).map_err(|e| format!("udp send: {e}"))?;
             }
-            Via::Tcp(style) => match tcp_exchange(addr, &m.bytes, *style, Duration::from_secs(15)) {
+            Via::Tcp(style) => match tcp_exchange(addr, &m.bytes, *style, Duration::from_secs(if b.idle_tcp_client { 4 } else { 15 })) {
                 Ok(Some((n, payload))) => {
                     if n as usize != payload.len() {
                         tcp_prefix_mismatch = Some(format!("message {i}: length prefix {n} but {} octets followed", payload.len()));
@@ -505,7 +520,7 @@ impl Prop for Authoritative {
         900
     }
     fn max_shrink_iters(&self) -> u32 {
-        120
+        40
     }
     fn cases(&self, tier: Tier) -> u64 {
         tier.pick(1_600, 40_000)
@@ -513,7 +528,7 @@ impl Prop for Authoritative {
     fn generate(&self, g: &mut Gen) -> Batch {
         let n = g.range(1, 16);
         let heavy = g.chance(1, 40);
-        Batch { msgs: (0..n).map(|i| gen_msg(g, i, heavy)).collect() }
+        Batch { msgs: (0..n).map(|i| gen_msg(g, i, heavy)).collect(), idle_tcp_client: g.chance(1, 3) }
     }
     fn enumerate(&self, _tier: Tier, emit: &mut dyn FnMut(Batch)) {
         // every question name x the common types, over both transports
@@ -523,7 +538,7 @@ impl Prop for Authoritative {
                 let q = WMsg { id: 0x1000 + (j as u16), qr: false, opcode: 0, aa: false, tc: false, rd: j % 2 == 0, ra: false, rcode: 0, questions: vec![WQ { name: N::parse(name), qtype: t, qclass: 1 }], answers: vec![], authority: vec![], additional: vec![] };
                 msgs.push(Msg { via: if (j + k) % 2 == 0 { Via::Udp } else { Via::Tcp(TcpStyle::Whole) }, bytes: rwire::encode_plain(&q) });
             }
-            emit(Batch { msgs });
+            emit(Batch { msgs, idle_tcp_client: false });
         }
         // the adversarial constructions over TCP (incl. the maximal pointer chains)
         for c in Construction::all() {
@@ -532,7 +547,7 @@ impl Prop for Authoritative {
                 bytes[0] = 0x10;
                 bytes[1] = 0x00;
             }
-            emit(Batch { msgs: vec![Msg { via: Via::Tcp(TcpStyle::Whole), bytes }] });
+            emit(Batch { msgs: vec![Msg { via: Via::Tcp(TcpStyle::Whole), bytes }], idle_tcp_client: false });
         }
     }
     fn check(&self, b: &Batch) -> Outcome {
@@ -830,7 +845,7 @@ impl Prop for Forwarding {
             msgs.push(Msg { via: if *tcp { Via::Tcp(TcpStyle::Whole) } else { Via::Udp }, bytes: rwire::encode_plain(&m) });
             questions.push((q, kind.clone(), *rd));
         }
-        let batch = Batch { msgs };
+        let batch = Batch { msgs, idle_tcp_client: false };
         // framing, echo, RA: the common judge
         let mut out = judge_batch(&mut fwd.server, &fwd.zones, true, &batch);
         if out.failure.is_some() {
@@ -872,7 +887,7 @@ pub fn def() -> PropertyDef {
     PropertyDef {
         id: "C09",
         level: "exploration",
-        rule: "authoritative-only: one running `resolved --authoritative-only` (shipped binary, guard off) with fixed zone and hosts files (authoritative zone with aliases, alias loop, wildcard records and a wildcard alias asked one and two labels below, empty non-terminals, delegation, RRsets of 1 KB, 12 KB and 75 KB; a non-authoritative zone; hosts entries). A case is a batch of 1..16 messages interleaved over one UDP socket and separate TCP connections (whole, dribbled in pieces, announced longer than sent then half-closed, with trailing junk): well-formed queries with arbitrary header bits, 0..3 questions, known/special/unknown types and classes; single-byte mutations and truncations of them; the C03 adversarial constructions (incl. the 8180-hop pointer chains over TCP); runts of 0..11 octets. Every message has its own ID; a sentinel query closes the batch. Oracle per message, with the reference decoder as the only reader of replies: no reply iff QR=1 or fewer than 2 octets (unparseable input with the QR bit set: either); otherwise exactly one reply, same ID, QR=1; FORMERR iff the reference decoder rejects; NOTIMP iff opcode != 0; REFUSED iff more than one question or an unknown type/class; opcode, RD and questions echoed; RA clear; UDP <= 512 octets and TC iff the full encoding (learnt over TCP) is longer, the cut reply being its prefix; TCP length prefix = octets that follow; answer, authority, AA and RCODE equal those of dns_resolver::resolve run in-process on the same files through the documented mapping (SERVFAIL for an error or empty result); answer records only at the question name or on its alias chain; the server process is alive and answers the sentinel after every batch; no stray replies. Also enumerated: every configured name x 7 types on both transports, and every adversarial construction over TCP. forwarding: a second server forwarding to a scripted loopback forwarder (real sockets, so the real UDP receive path): replies cut short inside a record, TC, TC followed by a TCP reply of which only the length prefix and 0..3 octets arrive, garbage, CNAME, NXDOMAIN, (thorough) silence; same framing rules with RA set; every answer record must have been supplied by the forwarder or a zone file and lie on the alias chain; with RD set the forwarder's answer must come back. Non-trivial = a batch with both malformed and well-formed messages over both transports / a forwarding batch with a faulty datagram. Distinct by hash of the batch.",
+        rule: "authoritative-only: one running `resolved --authoritative-only` (shipped binary, guard off) with fixed zone and hosts files (authoritative zone with aliases, alias loop, wildcard records and a wildcard alias asked one and two labels below, empty non-terminals, delegation, RRsets of 1 KB, 12 KB and 75 KB; a non-authoritative zone; hosts entries). A case is a batch of 1..16 messages interleaved over one UDP socket and separate TCP connections (one batch in three with an idle TCP client connected throughout; whole, dribbled in pieces, announced longer than sent then half-closed, with trailing junk): well-formed queries with arbitrary header bits, 0..3 questions, known/special/unknown types and classes; single-byte mutations and truncations of them; the C03 adversarial constructions (incl. the 8180-hop pointer chains over TCP); runts of 0..11 octets. Every message has its own ID; a sentinel query closes the batch. Oracle per message, with the reference decoder as the only reader of replies: no reply iff QR=1 or fewer than 2 octets (unparseable input with the QR bit set: either); otherwise exactly one reply, same ID, QR=1; FORMERR iff the reference decoder rejects; NOTIMP iff opcode != 0; REFUSED iff more than one question or an unknown type/class; opcode, RD and questions echoed; RA clear; UDP <= 512 octets and TC iff the full encoding (learnt over TCP) is longer, the cut reply being its prefix; TCP length prefix = octets that follow; answer, authority, AA and RCODE equal those of dns_resolver::resolve run in-process on the same files through the documented mapping (SERVFAIL for an error or empty result); answer records only at the question name or on its alias chain; the server process is alive and answers the sentinel after every batch; no stray replies. Also enumerated: every configured name x 7 types on both transports, and every adversarial construction over TCP. forwarding: a second server forwarding to a scripted loopback forwarder (real sockets, so the real UDP receive path): replies cut short inside a record, TC, TC followed by a TCP reply of which only the length prefix and 0..3 octets arrive, garbage, CNAME, NXDOMAIN, (thorough) silence; same framing rules with RA set; every answer record must have been supplied by the forwarder or a zone file and lie on the alias chain; with RD set the forwarder's answer must come back. Non-trivial = a batch with both malformed and well-formed messages over both transports / a forwarding batch with a faulty datagram. Distinct by hash of the batch.",
         assumptions: vec![
             "replies are collected until the sentinel's reply plus a 60 ms grace period; a missing sentinel reply within 20 s is reported as server-unresponsive",
             "unparseable input whose QR bit is set may be answered with FORMERR or not at all",
